@@ -6,6 +6,16 @@
 // must be what the specification's conversion rules give. Float rules
 // (unsampling, cycles -> ns) are named by the specification and evaluated
 // here with an independent formula.
+//
+// The memory map comes from the specification as a list of lines (mapping
+// entries and attr=value lines, mapsrc) together with the list of mappings
+// the documented rules leave (maplist) and the index of the mapping of every
+// frame (mapidx); the whole Mapping list of the parsed profile is compared,
+// not only the mappings that locations point to. For the map forms whose
+// rules edit mappings in place, a subset of the documents is parsed four
+// times with file names no other document uses: parsing is history-free,
+// every parse must give what the first gave and no parse may hand out
+// objects that another profile holds.
 package main
 
 import (
@@ -13,6 +23,7 @@ import (
 	"encoding/binary"
 	"encoding/json"
 	"fmt"
+	"hash/fnv"
 	"math"
 	"math/big"
 	"strings"
@@ -44,13 +55,41 @@ type val struct {
 	Hz     int64   `json:"hz"`
 	Bytes  int64   `json:"bytes"`
 }
+
+// one line of the memory map as the specification lists it: a mapping entry (k = "map") whose file name is a list of
+// parts (literal text or a reference $attr), or an attribute line (k = "attr")
+type part struct {
+	Ref bool   `json:"ref"`
+	S   string `json:"s"`
+}
+type mapline struct {
+	K     string `json:"k"`
+	Start uint64 `json:"start"`
+	Limit uint64 `json:"limit"`
+	Off   uint64 `json:"off"`
+	X     bool   `json:"x"`
+	File  []part `json:"file"`
+	Name  string `json:"name"`
+	Value string `json:"value"`
+}
+
+// one mapping the specification expects in the parsed profile (limit -1: the largest address, the made-up mapping)
+type emap struct {
+	File  string `json:"file"`
+	Start uint64 `json:"start"`
+	Limit int64  `json:"limit"`
+	Off   uint64 `json:"off"`
+}
 type lcase struct {
-	Doc      doc        `json:"doc"`
-	Map      string     `json:"map"`
-	Stacks   [][]uint64 `json:"stacks"`
-	Values   []val      `json:"values"`
-	Period   int64      `json:"period"`
-	Mappings [][]string `json:"mappings"`
+	Doc     doc        `json:"doc"`
+	Map     string     `json:"map"`
+	Stacks  [][]uint64 `json:"stacks"`
+	Values  []val      `json:"values"`
+	Period  int64      `json:"period"`
+	MapSrc  []mapline  `json:"mapsrc"`
+	MapList []emap     `json:"maplist"`
+	MapIdx  [][]int    `json:"mapidx"`
+	root    string     // prefix of every file name of the memory map (the history-free parses)
 }
 
 var run *vlib.Run
@@ -65,49 +104,90 @@ func hexes(st []uint64, sep string) string {
 	return strings.Join(s, sep)
 }
 
-// memory map: exe [8,4096), a data mapping that must be skipped, lib [4096,8192)
+// memory map: the lines the specification lists (mapsrc), in the syntax the form and the variant select
 // (the MAPPED_LIBRARIES: sentinel belongs to the gperftools heap and CPU formats; the Go text formats end
 // their records with a "---" line, so only "--- Memory map: ---" is well-formed there)
-func memMap(form string, v int, gperf bool) string {
-	var b strings.Builder
-	switch form {
-	case "none":
+//
+//	proc:  00000008-00001000 r-xp 00000000 fd:01 1234 /bin/exe         (/proc/self/maps)
+//	at:    0x8-0x1000 /bin/exe (@0) B01                                (the recommended brief form; executable entries only)
+//	colon: "  00000008-00001000: /bin/exe", "  00003000-00004000 rw-p /bin/exe"   (no file offsets)
+//
+// root is put in front of every file name: in front of the first part if that is literal text, else in front of the
+// value of every attribute (a name has at most one reference, at its head: anything else is a harness error).
+func memMap(c *lcase, v int, gperf bool) string {
+	if c.Map == "none" {
 		return ""
+	}
+	style, sentinel := "proc", "--- Memory map: ---\n"
+	switch c.Map {
 	case "procmaps":
-		if v%2 == 0 || !gperf {
-			b.WriteString("--- Memory map: ---\n")
-		} else {
-			b.WriteString("MAPPED_LIBRARIES:\n")
+		if v%2 == 1 && gperf {
+			sentinel = "MAPPED_LIBRARIES:\n"
 		}
-		b.WriteString("00000008-00001000 r-xp 00000000 fd:01 1234 /bin/exe\n")
-		b.WriteString("00003000-00004000 rw-p 00002000 fd:01 1234 /bin/exe\n")
-		b.WriteString("00001000-00002000 r-xp 00000000 fd:01 99   /lib/libc.so.6\n")
-	case "offsetlib":
-		// the map lists only the second part of the library, at file offset 0x800: addresses in [start-offset, start)
-		// belong to it as well (the mapping is extended downwards and its offset becomes 0)
-		b.WriteString("--- Memory map: ---\n")
-		b.WriteString("00000008-00001000 r-xp 00000000 fd:01 1234 /bin/exe\n")
-		b.WriteString("00001800-00002000 r-xp 00000800 fd:01 99   /lib/libc.so.6\n")
-	case "split3":
-		// the executable as three adjacent entries with consecutive file offsets: one mapping again after parsing;
-		// the addresses 16, 17 and 32 of the catalogue fall into the first, second and third piece
-		b.WriteString("--- Memory map: ---\n")
-		b.WriteString("00000008-00000011 r-xp 00000000 fd:01 1234 /bin/exe\n")
-		b.WriteString("00000011-00000020 r-xp 00000009 fd:01 1234 /bin/exe\n")
-		b.WriteString("00000020-00001000 r-xp 00000018 fd:01 1234 /bin/exe\n")
-		b.WriteString("00003000-00004000 rw-p 00002000 fd:01 1234 /bin/exe\n")
-		b.WriteString("00001000-00001001 r-xp 00000000 fd:01 99   /lib/libc.so.6\n")
-		b.WriteString("00001001-00001800 r-xp 00000001 fd:01 99   /lib/libc.so.6\n")
-		b.WriteString("00001800-00002000 r-xp 00000800 fd:01 99   /lib/libc.so.6\n")
+	case "offsetlib", "split3":
+		// the file offsets matter: /proc/maps syntax only
 	case "brief":
-		b.WriteString("--- Memory map: ---\n")
-		if v%2 == 0 {
-			b.WriteString("0x8-0x1000 /bin/exe (@0) B01\n")
-			b.WriteString("0x1000-0x2000 /lib/libc.so.6 (@0) B02\n")
-		} else {
-			b.WriteString("  00000008-00001000: /bin/exe\n")
-			b.WriteString("  00003000-00004000 rw-p /bin/exe\n")
-			b.WriteString("  00001000-00002000: /lib/libc.so.6\n")
+		style = [2]string{"at", "colon"}[v%2]
+	case "split2":
+		// the first piece is at file offset 0: the joined mapping is the same with and without the offsets
+		style = [3]string{"proc", "at", "colon"}[v%3]
+		if v%2 == 1 && gperf {
+			sentinel = "MAPPED_LIBRARIES:\n"
+		}
+	case "attrs":
+		style = [3]string{"colon", "proc", "at"}[v%3]
+		if v%2 == 1 && gperf {
+			sentinel = "MAPPED_LIBRARIES:\n"
+		}
+	default:
+		run.Infra("memory map form without a printer: " + c.Map)
+		return ""
+	}
+	var b strings.Builder
+	b.WriteString(sentinel)
+	ids := map[string]int{}
+	for _, l := range c.MapSrc {
+		if l.K == "attr" {
+			if v%2 == 0 {
+				fmt.Fprintf(&b, "  %s=%s%s\n", l.Name, c.root, l.Value)
+			} else {
+				fmt.Fprintf(&b, "%s = %s%s\n", l.Name, c.root, l.Value)
+			}
+			continue
+		}
+		file := ""
+		for i, p := range l.File {
+			switch {
+			case p.Ref && i > 0:
+				run.Infra("memory map entry with a reference that is not at the head of the name")
+			case p.Ref:
+				file += "$" + p.S
+			case i == 0:
+				file += c.root + p.S
+			default:
+				file += p.S
+			}
+		}
+		if _, ok := ids[file]; !ok {
+			ids[file] = len(ids) + 1
+		}
+		perm := "r-xp"
+		if !l.X {
+			perm = "rw-p"
+		}
+		switch style {
+		case "proc":
+			fmt.Fprintf(&b, "%08x-%08x %s %08x fd:01 %d %s\n", l.Start, l.Limit, perm, l.Off, 1233+ids[file], file)
+		case "at":
+			if l.X {
+				fmt.Fprintf(&b, "0x%x-0x%x %s (@%x) B%02d\n", l.Start, l.Limit, file, l.Off, ids[file])
+			}
+		case "colon":
+			if l.X {
+				fmt.Fprintf(&b, "  %08x-%08x: %s\n", l.Start, l.Limit, file)
+			} else {
+				fmt.Fprintf(&b, "  %08x-%08x %s %s\n", l.Start, l.Limit, perm, file)
+			}
 		}
 	}
 	return b.String()
@@ -428,7 +508,7 @@ func one(raw json.RawMessage, c *lcase, idx int) {
 					}
 					hc.Stacks = append(hc.Stacks, x)
 				}
-				compare(raw, &hc, data, k)
+				compare(raw, &hc, data, k, false)
 				continue
 			}
 		case "javaheap":
@@ -472,15 +552,93 @@ func one(raw json.RawMessage, c *lcase, idx int) {
 			case "threadz":
 				data = printThreadz(&hd, v)
 			}
-			compare(raw, &hc, data, k)
+			compare(raw, &hc, data, k, false)
 			continue
 		}
-		mm := memMap(c.Map, v, d.Fmt == "heap" || d.Fmt == "cpu")
-		if d.Fmt == "gocount" && mm != "" {
-			data = append(data, '\n')
+		data = withMap(c, data, v)
+		compare(raw, c, data, k, false)
+	}
+	historyFree(raw, c)
+}
+
+func withMap(c *lcase, data []byte, v int) []byte {
+	mm := memMap(c, v, c.Doc.Fmt == "heap" || c.Doc.Fmt == "cpu")
+	if c.Doc.Fmt == "gocount" && mm != "" {
+		data = append(data, '\n')
+	}
+	return append(data, mm...)
+}
+
+// historyFree: parsing is history-free. The map forms whose rules edit mappings in place (a split mapping joined, a
+// mapping extended downwards) are rendered once more with file names that no other document of this process uses and
+// parsed four times: the first parse must be what the specification expects, every later parse must give exactly what
+// the first gave, no parse may change a profile handed out earlier, and no two profiles may hold the same Mapping
+// object.
+func historyFree(raw json.RawMessage, c *lcase) {
+	switch c.Map {
+	case "split2", "split3", "offsetlib":
+	default:
+		return
+	}
+	h := fnv.New32a()
+	h.Write(raw)
+	sum := h.Sum32()
+	hc := *c
+	hc.root = fmt.Sprintf("/h%08x", sum)
+	v := int(sum>>8)%6 + int(run.Seed)*7
+	d := &hc.Doc
+	var data []byte
+	switch d.Fmt {
+	case "gocount":
+		data = printGoCount(d, v)
+	case "heap":
+		data = printHeap(d, v)
+	case "contention":
+		data = printContention(d, v)
+	case "threadz":
+		data = printThreadz(d, v)
+	case "cpu":
+		data = printCPU(d, v)
+	default:
+		run.Infra("history-free parses: no printer for " + d.Fmt)
+		return
+	}
+	data = withMap(&hc, data, v)
+	p1, first := compare(raw, &hc, data, 0, true)
+	if p1 == nil {
+		return
+	}
+	show := string(data)
+	if d.Fmt == "cpu" {
+		show = fmt.Sprintf("% x", data)
+	}
+	held := map[*profile.Mapping]int{}
+	for _, m := range p1.Mapping {
+		held[m] = 1
+	}
+	for n := 2; n <= 4; n++ {
+		run.Count("")
+		p, err := profile.ParseData(data)
+		if err != nil {
+			run.Violate("history", msig(&hc, "history"), fmt.Sprintf("parse #%d of a document that parse #1 accepted is rejected: %v\n%s", n, err, show), raw, nil)
+			return
 		}
-		data = append(data, mm...)
-		compare(raw, c, data, k)
+		if got := p.String(); got != first {
+			run.Violate("history", msig(&hc, "history"), fmt.Sprintf("parse #%d of the same document in one process differs from parse #1 (which was what the specification expects)\nparse #%d:\n%s\nparse #1:\n%s\ndocument:\n%s", n, n, got, first, show), raw, nil)
+		}
+		for _, m := range p.Mapping {
+			if k, ok := held[m]; ok {
+				run.Violate("sharing", msig(&hc, "shared-mapping"), fmt.Sprintf("parse #%d and parse #%d of the same document returned profiles holding the same Mapping object (%s [%x,%x)): editing one profile edits the other\n%s", k, n, m.File, m.Start, m.Limit, show), raw, nil)
+				break
+			}
+		}
+		for _, m := range p.Mapping {
+			held[m] = n
+		}
+		if now := p1.String(); now != first {
+			run.Violate("history", msig(&hc, "history"), fmt.Sprintf("parse #%d of the same document changed the profile that parse #1 had returned\nnow:\n%s\nbefore:\n%s\ndocument:\n%s", n, now, first, show), raw, nil)
+			return
+		}
 	}
 }
 
@@ -488,7 +646,34 @@ func sig(c *lcase, what string) string {
 	return fmt.Sprintf("%s:%s:%s", what, c.Doc.Fmt, c.Doc.Variant)
 }
 
-func compare(raw json.RawMessage, c *lcase, data []byte, k int) {
+// the memory map is read by one reader for every format: its findings are named after the map form and the format only
+func msig(c *lcase, what string) string {
+	return fmt.Sprintf("%s:%s:%s", what, c.Map, c.Doc.Fmt)
+}
+
+// mapping descriptions: what the parser returned and what the specification expects
+const maxAddr = ^uint64(0)
+
+var compared int // comparisons made so far
+
+func mdesc(file string, start, limit, off uint64) string {
+	if file == "" && start == 0 && limit == maxAddr && off == 0 {
+		return "fake"
+	}
+	return fmt.Sprintf("%s[%x,%x)@%x", file, start, limit, off)
+}
+
+func (c *lcase) edesc(m *emap) string {
+	if m.File == "" {
+		return mdesc("", m.Start, uint64(m.Limit), m.Off) // limit -1: the largest address
+	}
+	return mdesc(c.root+m.File, m.Start, uint64(m.Limit), m.Off)
+}
+
+// compare parses data and holds the result against the expectation of the specification; it returns the profile (nil
+// if there is none or if it is not what the specification expects) and, if asked to, its text form taken right after
+// the parse
+func compare(raw json.RawMessage, c *lcase, data []byte, k int, describe bool) (*profile.Profile, string) {
 	run.Count(fmt.Sprintf("%s|%s|%v|%d|%d|%d|%s", c.Doc.Fmt, c.Doc.Variant, c.Doc.Recs, c.Doc.Rate, c.Doc.Period, c.Doc.Hz, c.Map))
 	show := func() string {
 		if c.Doc.Fmt == "cpu" || c.Doc.Fmt == "javacpu" {
@@ -496,21 +681,47 @@ func compare(raw json.RawMessage, c *lcase, data []byte, k int) {
 		}
 		return string(data)
 	}
+	bad := 0
+	violate := func(check, sg, detail string) {
+		bad++
+		run.Violate(check, sg, detail, raw, nil)
+	}
 	p, err := profile.ParseData(data)
 	if err != nil {
-		run.Violate("parse", sig(c, "rejected"), fmt.Sprintf("well-formed %s document rejected: %v\n%s", c.Doc.Fmt, err, show()), raw, nil)
-		return
+		violate("parse", sig(c, "rejected"), fmt.Sprintf("well-formed %s document rejected: %v\n%s", c.Doc.Fmt, err, show()))
+		return nil, ""
+	}
+	text := ""
+	if describe {
+		text = p.String()
 	}
 	if len(p.Sample) != len(c.Stacks) {
-		run.Violate("samples", sig(c, "sample-count"), fmt.Sprintf("%d samples, the document has %d records (threadz: minus same-as-previous)\n%s", len(p.Sample), len(c.Stacks), show()), raw, nil)
-		return
+		violate("samples", sig(c, "sample-count"), fmt.Sprintf("%d samples, the document has %d records (threadz: minus same-as-previous)\n%s", len(p.Sample), len(c.Stacks), show()))
+		return nil, ""
 	}
 	if p.Period != c.Period {
-		run.Violate("period", sig(c, "period"), fmt.Sprintf("period %d, want %d\n%s", p.Period, c.Period, show()), raw, nil)
+		violate("period", sig(c, "period"), fmt.Sprintf("period %d, want %d\n%s", p.Period, c.Period, show()))
+	}
+	java := strings.HasPrefix(c.Doc.Fmt, "java")
+	if !java {
+		// the list of mappings is what the rules of the specification leave of the memory map
+		if len(c.MapIdx) != len(c.Stacks) {
+			run.Infra("case without mapping indexes")
+			return nil, ""
+		}
+		var gotl, wantl []string
+		for _, m := range p.Mapping {
+			gotl = append(gotl, mdesc(m.File, m.Start, m.Limit, m.Offset))
+		}
+		for i := range c.MapList {
+			wantl = append(wantl, c.edesc(&c.MapList[i]))
+		}
+		if fmt.Sprint(gotl) != fmt.Sprint(wantl) {
+			violate("mapping", msig(c, "mapping-list"), fmt.Sprintf("the profile has the mappings %v, the memory map gives %v\n%s", gotl, wantl, show()))
+		}
 	}
 	for i, s := range p.Sample {
 		var got []uint64
-		java := strings.HasPrefix(c.Doc.Fmt, "java")
 		for _, l := range s.Location {
 			if java {
 				// the identifier is recovered from the name the location section gave it; the address itself is cleared
@@ -528,7 +739,7 @@ func compare(raw json.RawMessage, c *lcase, data []byte, k int) {
 			got = append(got, l.Address)
 		}
 		if fmt.Sprint(got) != fmt.Sprint(c.Stacks[i]) {
-			run.Violate("addresses", sig(c, "addresses"), fmt.Sprintf("sample %d has addresses %x, want %x\n%s", i, got, c.Stacks[i], show()), raw, nil)
+			violate("addresses", sig(c, "addresses"), fmt.Sprintf("sample %d has addresses %x, want %x\n%s", i, got, c.Stacks[i], show()))
 			continue
 		}
 		want, exact := expectedValues(&c.Values[i])
@@ -541,48 +752,51 @@ func compare(raw json.RawMessage, c *lcase, data []byte, k int) {
 			}
 		}
 		if !ok {
-			run.Violate("values", sig(c, "values:"+c.Values[i].Rule), fmt.Sprintf("sample %d has values %v, rule %s gives %v\n%s", i, s.Value, c.Values[i].Rule, want, show()), raw, nil)
+			violate("values", sig(c, "values:"+c.Values[i].Rule), fmt.Sprintf("sample %d has values %v, rule %s gives %v\n%s", i, s.Value, c.Values[i].Rule, want, show()))
 		}
 		if c.Doc.Fmt == "heap" || c.Doc.Fmt == "javaheap" {
 			lab := s.NumLabel["bytes"]
 			switch {
 			case c.Values[i].Bytes != 0 && (len(lab) != 1 || lab[0] != c.Values[i].Bytes):
-				run.Violate("label", sig(c, "bytes-label"), fmt.Sprintf("sample %d has bytes label %v, want %d\n%s", i, lab, c.Values[i].Bytes, show()), raw, nil)
+				violate("label", sig(c, "bytes-label"), fmt.Sprintf("sample %d has bytes label %v, want %d\n%s", i, lab, c.Values[i].Bytes, show()))
 			case c.Values[i].Bytes == 0 && len(lab) > 0 && lab[0] != 0:
-				run.Violate("label", sig(c, "bytes-label"), fmt.Sprintf("sample %d has bytes label %v for an empty record\n%s", i, lab, show()), raw, nil)
+				violate("label", sig(c, "bytes-label"), fmt.Sprintf("sample %d has bytes label %v for an empty record\n%s", i, lab, show()))
 			}
 		}
 		for j, l := range s.Location {
 			if java {
 				break // Java locations carry no address, hence no mapping
 			}
-			want := c.Mappings[i][j]
-			m := l.Mapping
+			if len(c.MapIdx[i]) != len(s.Location) || c.MapIdx[i][j] < 1 || c.MapIdx[i][j] > len(c.MapList) {
+				run.Infra("case with mapping indexes that do not fit its stacks")
+				return nil, ""
+			}
+			want := c.edesc(&c.MapList[c.MapIdx[i][j]-1])
 			gotm := "nil"
-			if m != nil {
-				switch {
-				case m.File == "/bin/exe" && m.Start == 8 && m.Limit == 4096 && m.Offset == 0:
-					gotm = "exe"
-				case m.File == "/lib/libc.so.6" && m.Start == 4096 && m.Limit == 8192 && m.Offset == 0:
-					gotm = "lib"
-				case m.File == "" && m.Start == 0:
-					gotm = "fake"
-				default:
-					gotm = fmt.Sprintf("%s[%x,%x)@%x", m.File, m.Start, m.Limit, m.Offset)
-				}
+			if m := l.Mapping; m != nil {
+				gotm = mdesc(m.File, m.Start, m.Limit, m.Offset)
 			}
 			if gotm != want {
-				run.Violate("mapping", sig(c, "mapping:"+c.Map), fmt.Sprintf("sample %d frame %d (address %#x) is attributed to mapping %s, want %s\n%s", i, j, l.Address, gotm, want, show()), raw, nil)
+				violate("mapping", sig(c, "mapping:"+c.Map), fmt.Sprintf("sample %d frame %d (address %#x) is attributed to mapping %s, want %s\n%s", i, j, l.Address, gotm, want, show()))
 			}
 		}
 	}
 	// the result is an ordinary profile: it survives the codec
+	// (compressing is the codec's business, C02, and by far the most expensive step here: one comparison in 64 does it)
 	var buf bytes.Buffer
-	if err := p.Write(&buf); err != nil {
-		run.Violate("write", sig(c, "write"), err.Error(), raw, nil)
-	} else if q, err := profile.Parse(&buf); err != nil || len(q.Sample) != len(p.Sample) {
-		run.Violate("write", sig(c, "reparse"), fmt.Sprint(err), raw, nil)
+	write := p.WriteUncompressed
+	if compared++; compared%64 == 1 {
+		write = p.Write
 	}
+	if err := write(&buf); err != nil {
+		violate("write", sig(c, "write"), err.Error())
+	} else if q, err := profile.Parse(&buf); err != nil || len(q.Sample) != len(p.Sample) {
+		violate("write", sig(c, "reparse"), fmt.Sprint(err))
+	}
+	if bad > 0 {
+		return nil, ""
+	}
+	return p, text
 }
 
 func main() {
@@ -605,5 +819,5 @@ func main() {
 			run.Sample(json.RawMessage(raw))
 		}
 	})
-	run.Finish("cases = Legacy.tla: abstract legacy documents (Go count goroutine/threadcreate; heap heapprofile/heap_v2/heapz_v2/heap with rates 1, 4, 524288 and in-use/alloc header variants; contentionz/mutex/contention with periods 0/1/100 and 0/1/2.5 GHz; threadz with same-as-previous records; binary CPU 64/32 bit little/big endian incl. shared signal frames (all, 32 of 33, 32 of 34) and duplicated leaves) x trailing memory map {none, /proc/maps, brief} x 3 (thorough 6) surface variants per document (comments, blank lines, spacing, attribute order, address layout, sentinel spelling); non-trivial = distinct (document, map form)")
+	run.Finish("cases = Legacy.tla: abstract legacy documents (Go count goroutine/threadcreate; heap heapprofile/heap_v2/heapz_v2/heap with rates 1, 4, 524288 and in-use/alloc header variants; contentionz/mutex/contention with periods 0/1/100 and 0/1/2.5 GHz; threadz with same-as-previous records; binary CPU 64/32 bit little/big endian incl. shared signal frames (all, 32 of 33, 32 of 34) and duplicated leaves) x trailing memory map {none, /proc/maps, brief, executable and library split in three, library listed from its second part, library first and executable split in two, three attr=value lines with $attr file names} x 3 (thorough 6) surface variants per document (comments, blank lines, spacing, attribute order, address layout, sentinel spelling, map syntax); the whole mapping list and the mapping of every frame compared with the specification's; for the split and offset forms every document parsed four more times with file names of its own (later parses equal the first, no shared Mapping objects); non-trivial = distinct (document, map form)")
 }
